@@ -24,7 +24,7 @@ type Runner struct {
 	Deleted map[string]bool // bucket/name ever deleted or never created but probed
 	Buckets map[string]bool // buckets that must exist
 	// counters for non-triviality rules
-	Writes, Patches, Failed, Deletes, Recreates, AdjacentWrites, ResumableMulti, Restarts, Probes int
+	Writes, Patches, Failed, Deletes, Recreates, AdjacentWrites, ResumableMulti, Restarts, Probes, Skipped int
 	lastWrite                                                                             string
 	formRot                                                                               int
 	SkipList                                                                              bool // do not compare listing order (checks that own listing semantics do it themselves)
@@ -61,6 +61,13 @@ func condQuery(v url.Values, extra url.Values) url.Values {
 func (r *Runner) Do(op *Op) string {
 	r.N++
 	var mis string
+	if op.K != "probe" && r.unrepresentable(op) {
+		// A name that is a directory of (or lies below) a live object cannot be a file of the file store at this
+		// moment: outside the stated domain ("names representable as files"), so the request is not sent.
+		r.label("skipped-name-not-representable-now")
+		r.Skipped++
+		return ""
+	}
 	switch op.K {
 	case "upload":
 		mis = r.upload(op)
@@ -95,6 +102,33 @@ func (r *Runner) Do(op *Op) string {
 		return op.K + ": " + mis
 	}
 	return ""
+}
+
+// DirConflict: n is a '/'-prefix of a live object of bucket b, or a live object is a '/'-prefix of n.
+func (r *Runner) DirConflict(b, n string) bool {
+	for o := range r.M.Buckets[b] {
+		if len(o) > len(n) && o[:len(n)+1] == n+"/" || len(n) > len(o) && n[:len(o)+1] == o+"/" {
+			return true
+		}
+	}
+	return false
+}
+
+func (r *Runner) unrepresentable(op *Op) bool {
+	switch op.K {
+	case "upload", "get", "getmeta", "patch", "delete", "dropsidecar":
+		return r.DirConflict(op.Bucket, op.Name)
+	case "compose":
+		for _, s := range op.Srcs {
+			if r.DirConflict(op.Bucket, s.Name) {
+				return true
+			}
+		}
+		return r.DirConflict(op.Bucket, op.Name)
+	case "copy":
+		return r.DirConflict(op.Bucket, op.Name) || r.DirConflict(op.DstBucket, op.DstName)
+	}
+	return false
 }
 
 // ---------------------------------------------------------------- uploads
@@ -558,7 +592,7 @@ func (r *Runner) VerifyAll() string {
 	for _, k := range dk {
 		i := strings.Index(k, "/")
 		b, n := k[:i], k[i+1:]
-		if r.M.Get(b, n) != nil {
+		if r.M.Get(b, n) != nil || r.DirConflict(b, n) {
 			continue
 		}
 		if mis := r.checkMeta(b, n); mis != "" {
